@@ -16,6 +16,7 @@ LOCK_TY = re.compile(r"lock_api::(mutex::Mutex|rwlock::RwLock)<")
 RT = "RT(read-transactions)"
 ADD_ONE = "nomt::beatree::ReadTransactionCounter::add_one"
 BLOCK0 = "nomt::beatree::ReadTransactionCounter::block_until_zero"
+RELEASE_ONE = "nomt::beatree::ReadTransactionCounter::release_one"
 RT_HOLDER = "nomt::beatree::ReadTransactionInner"
 
 # reviewed same-class nesting (one line of reason each)
@@ -267,6 +268,12 @@ class LockModel:
             if t["k"] == "drop":
                 out = {x for x in out if x[0] != t["pl"]["l"] or t["pl"].get("p")}
             elif t["k"] == "call":
+                # registering with the read-transaction counter is a shared acquisition of the barrier that lasts (at least)
+                # until the function returns: the count is only given back when the ReadTransaction built from it is dropped
+                if (t.get("callee") or "") == ADD_ONE:
+                    out.add((-1, RT, "R"))
+                elif (t.get("callee") or "") == RELEASE_ONE:
+                    out = {x for x in out if x[0] != -1}
                 # by-value arguments transfer the guard to the callee
                 for a in t["args"]:
                     if a["k"] == "move" and not a["pl"].get("p"):
